@@ -67,6 +67,22 @@ theorem pack_roundtrip {c : Codec} {D : Str → Prop} (hf : c.Faithful D) (m : F
   obtain ⟨img, hs, hc⟩ := pack_serialize_conforms hf m hD hlen
   exact ⟨img, hs, fun hsz => pack_parse_conforming hf (hc hsz).1 hD hN⟩
 
+/-- Consequently serialisation is injective on its domain: two different ordered file sets never
+produce the same archive image (order, names and contents are all recoverable). -/
+theorem pack_serialize_injective {c : Codec} {D : Str → Prop} (hf : c.Faithful D) (m m' : Files)
+    (hD : ∀ kv ∈ m, D kv.1) (hD' : ∀ kv ∈ m', D kv.1) (hN : DistinctNames m)
+    (hN' : DistinctNames m') (hlen : m.length ≤ 65535) (hlen' : m'.length ≤ 65535)
+    {img : Bytes} (hs : serialize c m = .ok img) (hs' : serialize c m' = .ok img)
+    (hsz : img.length < 2 ^ 32) : m = m' := by
+  obtain ⟨i1, h1, p1⟩ := pack_roundtrip hf m hD hN hlen
+  obtain ⟨i2, h2, p2⟩ := pack_roundtrip hf m' hD' hN' hlen'
+  have e1 : i1 = img := by have := h1.symm.trans hs; injection this
+  have e2 : i2 = img := by have := h2.symm.trans hs'; injection this
+  subst e1
+  subst e2
+  have := (p1 hsz).symm.trans (p2 hsz)
+  injection this
+
 /-- The round trip with no assumption about the text encoding left: for the executable sub-codec
 `sjisSub` (faithful on its whole alphabet, `sjisSub_faithful`), names of any length over ASCII,
 kana, Greek and Cyrillic — including the names whose UTF-8 and Shift-JIS lengths coincide. -/
